@@ -369,7 +369,7 @@ func BigSignS(z *big.Int) int {
 		}
 		return 1
 	}
-	if len(stripZeros(bigMag[z])) == 0 {
+	if isZeroMag(bigMag[z]) {
 		return 0
 	}
 	if bigNegative[z] {
